@@ -22,3 +22,9 @@ func Bad2(x uint64) uint64 {
 	defer func() {}()
 	return x
 }
+
+// Bad3 has a map key type that is not an identifier (the error message must not
+// depend on where the translator's data happens to live).
+func Bad3(m map[[2]uint64]uint64) uint64 {
+	return uint64(len(m))
+}
